@@ -312,45 +312,6 @@ theorem ibody_take_succ (vf : Env → String → String) (env : Env) (body : Lis
   unfold ibody
   rw [List.getElem?_map, h]; rfl
 
-/-! ### predictor -/
-
-theorem Inv.predictor {C : Ctx} (hC : CtxOK C) {T : Tables} {rk : Nat → Nat}
-    {X : List (Nat × EState)} (h : Inv C T rk X) (s : EState) :
-    Inv C (predictor C.G T s) rk X := by
-  unfold Pfl.Earley.predictor
-  split
-  · rename_i v _
-    have key : ∀ (l : List (FProd × Nat)) (T : Tables), Inv C T rk X →
-        (∀ pk ∈ l, C.G.prods[pk.2]? = some pk.1) →
-        Inv C (l.foldl (fun T pk =>
-          if pk.1.head = v then Pfl.Earley.pushIfNew C.G T s.e
-            { prod := pk.2, b := s.e, e := s.e, dot := 0, fs := pk.1.feats }
-          else T) T) rk X := by
-      intro l
-      induction l with
-      | nil => intro T hT _; exact hT
-      | cons pk l ih =>
-        intro T hT hl
-        rw [List.foldl_cons]
-        refine ih _ ?_ (fun pk' h' => hl pk' (List.mem_cons_of_mem _ h'))
-        split
-        · refine hT.pushIfNew ?_
-          have hpk := hl pk (List.mem_cons_self ..)
-          obtain ⟨h1, h2, h3⟩ := hT.objs pk.2 pk.1 hpk
-          have hlt : pk.2 < C.spec.length := by
-            rw [← hC.prods_len]
-            exact (List.getElem?_eq_some_iff.1 hpk).1
-          refine ⟨rfl, Nat.le_refl _, h1, h2, Nat.le_of_lt hlt, ?_⟩
-          intro pr hpr
-          refine ⟨Nat.zero_le _, fun σ hσ => ?_⟩
-          obtain ⟨env, he, ho⟩ := h3 pr hpr σ hσ
-          refine ⟨env, he, ho, ?_⟩
-          simp only [List.take_zero, seg_self]
-          exact .nil
-        · exact hT
-    exact key _ T h (fun pk hpk => mem_zip_range hpk)
-  · exact h
-
 /-! ### scanner -/
 
 theorem Inv.scanner {C : Ctx} (hC : CtxOK C) {T : Tables} {rk : Nat → Nat}
@@ -503,131 +464,196 @@ theorem rk_child {st : Store} {rk : Nat → Nat} (hw : WFS st rk) {F x : Nat} {g
     unfold crE at h1
     omega
 
-/-- one iteration of the completer's loop -/
-def complStep (G : Grammar) (s : EState) (T : Tables) (nx : EState) : Tables :=
-  if incomplete G nx ∧ nextSym G nx = some (.var (prodOf G s.prod).head) then
-    let (st1, cl) := copy T.store s.fs
-    match byPath st1 cl ["head"] with
-    | none => { T with store := st1 }
-    | some left =>
-      let (st2, cr) := copy st1 nx.fs
-      match byPath st2 cr [toString nx.dot] with
-      | none => { T with store := st2 }
-      | some considered =>
-        match unify (st2.length + 2) st2 considered left with
-        | .ok st3 =>
-          pushIfNew G { T with store := st3 } s.e { prod := nx.prod, b := nx.b, e := s.e, dot := nx.dot + 1, fs := cr }
-        | _ => { T with store := st2 }
-  else T
-
-theorem completer_eq (G : Grammar) (T : Tables) (s : EState) :
-    completer G T s = ((colGet T.processed s.b).flatMap (·.2)).foldl (complStep G s) T := rfl
-
-theorem Inv.complStep {C : Ctx} (hC : CtxOK C) {T : Tables} {rk : Nat → Nat}
+/-- `advance` preserves the invariant: `s` is a complete state, `nx` a state waiting at the
+beginning of `s` for the head of `s` -/
+theorem Inv.advance {C : Ctx} (hC : CtxOK C) {T : Tables} {rk : Nat → Nat}
     {X : List (Nat × EState)} (h : Inv C T rk X) {i : Nat} {s nx : EState} (hs : (i, s) ∈ X)
-    (hnx : (s.b, nx) ∈ X) (hcomp : incomplete C.G s = false) :
-    ∃ rk', Inv C (complStep C.G s T nx) rk' X := by
-  unfold Pfl.Earley.Lem.complStep
-  split
-  · rename_i hcond
-    obtain ⟨hinc, hnext⟩ := hcond
-    have hsOK := h.extra _ hs
-    have hnxOK := h.extra _ hnx
-    -- first copy
-    obtain ⟨rk1, hw1, hstep1, hcl, hrkcl, hsimcl, e1, he1⟩ := wfs_copy C.P h.wf hsOK.fs_lt
-    generalize hcp1 : copy T.store s.fs = r1 at *
-    obtain ⟨st1, cl⟩ := r1
-    simp only at hw1 hstep1 hcl hrkcl hsimcl he1 ⊢
-    cases hleft : byPath st1 cl ["head"] with
-    | none => exact ⟨rk1, h.step hstep1 hw1⟩
-    | some left =>
+    (hnx : (s.b, nx) ∈ X) (hcomp : incomplete C.G s = false) (hinc : incomplete C.G nx = true)
+    (hnext : nextSym C.G nx = some (.var (prodOf C.G s.prod).head)) :
+    ∃ rk', Inv C (Pfl.Earley.advance C.G T nx s) rk' X := by
+  unfold Pfl.Earley.advance
+  have hsOK := h.extra _ hs
+  have hnxOK := h.extra _ hnx
+  -- first copy
+  obtain ⟨rk1, hw1, hstep1, hcl, hrkcl, hsimcl, e1, he1⟩ := wfs_copy C.P h.wf hsOK.fs_lt
+  generalize hcp1 : copy T.store s.fs = r1 at *
+  obtain ⟨st1, cl⟩ := r1
+  simp only at hw1 hstep1 hcl hrkcl hsimcl he1 ⊢
+  cases hleft : byPath st1 cl ["head"] with
+  | none => exact ⟨rk1, h.step hstep1 hw1⟩
+  | some left =>
+    simp only
+    have hleftlt : left < st1.length := byPath_lt hw1.rng _ _ _ hcl hleft
+    have hrkleft : rk1 left + 1 = 2 := by rw [rk_child hw1 hleft, hrkcl]; exact hsOK.rk2
+    -- second copy
+    have hnxlt1 : nx.fs < st1.length := Nat.lt_of_lt_of_le hnxOK.fs_lt hstep1.len
+    obtain ⟨rk2, hw2, hstep2, hcr, hrkcr, hsimcr, e2, he2⟩ := wfs_copy C.P hw1 hnxlt1
+    generalize hcp2 : copy st1 nx.fs = r2 at *
+    obtain ⟨st2, cr⟩ := r2
+    simp only at hw2 hstep2 hcr hrkcr hsimcr he2 ⊢
+    have hstep12 := hstep1.trans hstep2
+    cases hcons : byPath st2 cr [toString nx.dot] with
+    | none => exact ⟨rk2, h.step hstep12 hw2⟩
+    | some considered =>
       simp only
-      have hleftlt : left < st1.length := byPath_lt hw1.rng _ _ _ hcl hleft
-      have hrkleft : rk1 left + 1 = 2 := by rw [rk_child hw1 hleft, hrkcl]; exact hsOK.rk2
-      -- second copy
-      have hnxlt1 : nx.fs < st1.length := Nat.lt_of_lt_of_le hnxOK.fs_lt hstep1.len
-      obtain ⟨rk2, hw2, hstep2, hcr, hrkcr, hsimcr, e2, he2⟩ := wfs_copy C.P hw1 hnxlt1
-      generalize hcp2 : copy st1 nx.fs = r2 at *
-      obtain ⟨st2, cr⟩ := r2
-      simp only at hw2 hstep2 hcr hrkcr hsimcr he2 ⊢
-      have hstep12 := hstep1.trans hstep2
-      cases hcons : byPath st2 cr [toString nx.dot] with
-      | none => exact ⟨rk2, h.step hstep12 hw2⟩
-      | some considered =>
+      have hconslt : considered < st2.length := byPath_lt hw2.rng _ _ _ hcr hcons
+      have hrkcr2 : rk2 cr = 2 := by
+        rw [hrkcr, hstep1.rk _ hnxOK.fs_lt]; exact hnxOK.rk2
+      have hrkcons : rk2 considered + 1 = 2 := by rw [rk_child hw2 hcons, hrkcr2]
+      have hleftlt2 : left < st2.length := Nat.lt_of_lt_of_le hleftlt hstep2.len
+      have hrkleft2 : rk2 left = rk1 left := hstep2.rk _ hleftlt
+      cases hun : unify (st2.length + 2) st2 considered left with
+      | ok st3 =>
         simp only
-        have hconslt : considered < st2.length := byPath_lt hw2.rng _ _ _ hcr hcons
-        have hrkcr2 : rk2 cr = 2 := by
-          rw [hrkcr, hstep1.rk _ hnxOK.fs_lt]; exact hnxOK.rk2
-        have hrkcons : rk2 considered + 1 = 2 := by rw [rk_child hw2 hcons, hrkcr2]
-        have hleftlt2 : left < st2.length := Nat.lt_of_lt_of_le hleftlt hstep2.len
-        have hrkleft2 : rk2 left = rk1 left := hstep2.rk _ hleftlt
-        cases hun : unify (st2.length + 2) st2 considered left with
-        | ok st3 =>
-          simp only
-          obtain ⟨rk3, hw3, hlen3, hrk3, hder, hpp, hsim3⟩ :=
-            unify_step C.P hw2 hconslt hleftlt2 (by omega) hun
-          have hstep3 : Step C.P st2 rk2 st3 rk3 := ⟨hlen3, hrk3, hsim3⟩
-          have hstepAll := hstep12.trans hstep3
-          have hInv3 := h.step hstepAll hw3
-          refine ⟨rk3, hInv3.pushIfNew ?_⟩
-          show StOK C st3 rk3 s.e _
-          have hleft2 : byPath st2 cl ["head"] = some left := by
-            rw [he2, byPath_append_store e2 hw1.inv.acyc hw1.rng _ hcl]; exact hleft
-          have hcl2 : cl < st2.length := Nat.lt_of_lt_of_le hcl hstep2.len
-          obtain ⟨_, l', hl', hdl'⟩ := hpp _ _ _ hcl2 hleft2
-          obtain ⟨_, c', hc', hdc'⟩ := hpp _ _ _ hcr hcons
-          have hlink : byPath st3 cr [toString nx.dot, "n"] = byPath st3 cl ["head", "n"] := by
-            have e1 := byPath_append st3 [toString nx.dot] ["n"] cr
-            have e2 := byPath_append st3 ["head"] ["n"] cl
-            simp only [List.cons_append, List.nil_append] at e1 e2
-            rw [e1, e2, hc', hl']
-            simp only [Option.bind_some]
-            exact byPath_congr (by rw [hdc', hdl', hder]) "n" []
-          have simA : Sim C.P T.store nx.fs st3 cr :=
-            ((hstep1.sim _ hnxOK.fs_lt).trans hsimcr).trans (hsim3 _ hcr)
-          have simB : Sim C.P T.store s.fs st3 cl :=
-            (hsimcl.trans (hstep2.sim _ hcl)).trans (hsim3 _ hcl2)
-          exact compl_good hC hsOK hnxOK hcomp hinc hnext simA simB hlink
-            (Nat.lt_of_lt_of_le hcr hlen3) (by rw [hrk3 _ hcr]; exact hrkcr2)
-        | conflict => exact ⟨rk2, h.step hstep12 hw2⟩
-        | fuel => exact ⟨rk2, h.step hstep12 hw2⟩
-  · exact ⟨rk, h⟩
+        obtain ⟨rk3, hw3, hlen3, hrk3, hder, hpp, hsim3⟩ :=
+          unify_step C.P hw2 hconslt hleftlt2 (by omega) hun
+        have hstep3 : Step C.P st2 rk2 st3 rk3 := ⟨hlen3, hrk3, hsim3⟩
+        have hstepAll := hstep12.trans hstep3
+        have hInv3 := h.step hstepAll hw3
+        refine ⟨rk3, hInv3.pushIfNew ?_⟩
+        show StOK C st3 rk3 s.e _
+        have hleft2 : byPath st2 cl ["head"] = some left := by
+          rw [he2, byPath_append_store e2 hw1.inv.acyc hw1.rng _ hcl]; exact hleft
+        have hcl2 : cl < st2.length := Nat.lt_of_lt_of_le hcl hstep2.len
+        obtain ⟨_, l', hl', hdl'⟩ := hpp _ _ _ hcl2 hleft2
+        obtain ⟨_, c', hc', hdc'⟩ := hpp _ _ _ hcr hcons
+        have hlink : byPath st3 cr [toString nx.dot, "n"] = byPath st3 cl ["head", "n"] := by
+          have e1 := byPath_append st3 [toString nx.dot] ["n"] cr
+          have e2 := byPath_append st3 ["head"] ["n"] cl
+          simp only [List.cons_append, List.nil_append] at e1 e2
+          rw [e1, e2, hc', hl']
+          simp only [Option.bind_some]
+          exact byPath_congr (by rw [hdc', hdl', hder]) "n" []
+        have simA : Sim C.P T.store nx.fs st3 cr :=
+          ((hstep1.sim _ hnxOK.fs_lt).trans hsimcr).trans (hsim3 _ hcr)
+        have simB : Sim C.P T.store s.fs st3 cl :=
+          (hsimcl.trans (hstep2.sim _ hcl)).trans (hsim3 _ hcl2)
+        exact compl_good hC hsOK hnxOK hcomp hinc hnext simA simB hlink
+          (Nat.lt_of_lt_of_le hcr hlen3) (by rw [hrk3 _ hcr]; exact hrkcr2)
+      | conflict => exact ⟨rk2, h.step hstep12 hw2⟩
+      | fuel => exact ⟨rk2, h.step hstep12 hw2⟩
 
-/-! ### completer, column loop, recogniser -/
+/-! ### completer, predictor, column loop, recogniser -/
 
 theorem Inv.weaken {C : Ctx} {T : Tables} {rk : Nat → Nat} {X X' : List (Nat × EState)}
     (h : Inv C T rk X) (hsub : ∀ e ∈ X', e ∈ X) : Inv C T rk X' :=
   ⟨h.wf, h.objs, h.chart, h.proc, fun e he => h.extra e (hsub e he)⟩
 
+/-- the invariant with the processed states of column `j` tracked additionally -/
+theorem Inv.withProc {C : Ctx} {T : Tables} {rk : Nat → Nat} {X : List (Nat × EState)}
+    (h : Inv C T rk X) (j : Nat) :
+    Inv C T rk (X ++ (procStates T j).map fun nx => (j, nx)) := by
+  refine ⟨h.wf, h.objs, h.chart, h.proc, fun e he => ?_⟩
+  rcases List.mem_append.1 he with he | he
+  · exact h.extra e he
+  · rw [List.mem_map] at he
+    obtain ⟨nx, hnx, rfl⟩ := he
+    exact h.proc _ _ hnx
+
 theorem Inv.completer {C : Ctx} (hC : CtxOK C) {T : Tables} {rk : Nat → Nat}
     {X : List (Nat × EState)} (h : Inv C T rk X) {i : Nat} {s : EState} (hs : (i, s) ∈ X)
     (hcomp : incomplete C.G s = false) : ∃ rk', Inv C (Pfl.Earley.completer C.G T s) rk' X := by
-  rw [completer_eq]
-  have hX' : Inv C T rk (X ++ (procStates T s.b).map fun nx => (s.b, nx)) := by
-    refine ⟨h.wf, h.objs, h.chart, h.proc, fun e he => ?_⟩
-    rcases List.mem_append.1 he with he | he
-    · exact h.extra e he
-    · rw [List.mem_map] at he
-      obtain ⟨nx, hnx, rfl⟩ := he
-      exact h.proc _ _ hnx
+  unfold Pfl.Earley.completer
+  simp only
+  have hX' := h.withProc s.b
   have key : ∀ (l : List EState) (T' : Tables) (rk' : Nat → Nat) (X' : List (Nat × EState)),
       Inv C T' rk' X' → (i, s) ∈ X' → (∀ nx ∈ l, (s.b, nx) ∈ X') →
-      ∃ rk'', Inv C (l.foldl (Pfl.Earley.Lem.complStep C.G s) T') rk'' X' := by
+      ∃ rk'', Inv C (l.foldl (fun T nx =>
+        if incomplete C.G nx ∧ nextSym C.G nx = some (.var (prodOf C.G s.prod).head) then
+          Pfl.Earley.advance C.G T nx s else T) T') rk'' X' := by
     intro l
     induction l with
     | nil => intro T' rk' X' h' _ _; exact ⟨rk', h'⟩
     | cons nx l ih =>
       intro T' rk' X' h' hs' hl
       rw [List.foldl_cons]
-      obtain ⟨rk1, h1⟩ := h'.complStep hC hs' (hl nx (List.mem_cons_self ..)) hcomp
+      have h1 : ∃ rk1, Inv C (if incomplete C.G nx ∧
+          nextSym C.G nx = some (.var (prodOf C.G s.prod).head) then
+          Pfl.Earley.advance C.G T' nx s else T') rk1 X' := by
+        split
+        · rename_i hcond
+          exact h'.advance hC hs' (hl nx (List.mem_cons_self ..)) hcomp hcond.1 hcond.2
+        · exact ⟨rk', h'⟩
+      obtain ⟨rk1, h1⟩ := h1
       exact ih _ rk1 X' h1 hs' (fun nx' hn => hl nx' (List.mem_cons_of_mem _ hn))
   obtain ⟨rk', h'⟩ := key (procStates T s.b) T rk _ hX' (List.mem_append_left _ hs)
     (fun nx hn => List.mem_append_right _ (List.mem_map.2 ⟨nx, hn, rfl⟩))
   exact ⟨rk', h'.weaken (fun e he => List.mem_append_left _ he)⟩
 
-theorem Inv.columnLoop {C : Ctx} (hC : CtxOK C) (i : Nat) (last : Bool) :
+/-- first phase of the predictor: the predicted items -/
+theorem Inv.predict {C : Ctx} (hC : CtxOK C) (v : String) (e : Nat) {rk : Nat → Nat}
+    {X : List (Nat × EState)} :
+    ∀ (l : List (FProd × Nat)) (T : Tables), Inv C T rk X →
+      (∀ pk ∈ l, C.G.prods[pk.2]? = some pk.1) →
+      Inv C (l.foldl (fun T pk =>
+        if pk.1.head = v then Pfl.Earley.pushIfNew C.G T e
+          { prod := pk.2, b := e, e := e, dot := 0, fs := pk.1.feats }
+        else T) T) rk X := by
+  intro l
+  induction l with
+  | nil => intro T hT _; exact hT
+  | cons pk l ih =>
+    intro T hT hl
+    rw [List.foldl_cons]
+    refine ih _ ?_ (fun pk' h' => hl pk' (List.mem_cons_of_mem _ h'))
+    split
+    · refine hT.pushIfNew ?_
+      have hpk := hl pk (List.mem_cons_self ..)
+      obtain ⟨h1, h2, h3⟩ := hT.objs pk.2 pk.1 hpk
+      have hlt : pk.2 < C.spec.length := by
+        rw [← hC.prods_len]
+        exact (List.getElem?_eq_some_iff.1 hpk).1
+      refine ⟨rfl, Nat.le_refl _, h1, h2, Nat.le_of_lt hlt, ?_⟩
+      intro pr hpr
+      refine ⟨Nat.zero_le _, fun σ hσ => ?_⟩
+      obtain ⟨env, he, ho⟩ := h3 pr hpr σ hσ
+      refine ⟨env, he, ho, ?_⟩
+      simp only [List.take_zero, seg_self]
+      exact .nil
+    · exact hT
+
+theorem Inv.predictor {C : Ctx} (hC : CtxOK C) {T : Tables} {rk : Nat → Nat}
+    {X : List (Nat × EState)} (h : Inv C T rk X) {s : EState} (hs : (s.e, s) ∈ X)
+    (hinc : incomplete C.G s = true) : ∃ rk', Inv C (Pfl.Earley.predictor C.G T s) rk' X := by
+  unfold Pfl.Earley.predictor
+  split
+  · rename_i v hnext
+    simp only
+    have h1 := Inv.predict hC v s.e _ T h (fun pk hpk => mem_zip_range hpk)
+    generalize (List.foldl (fun T pk =>
+        if pk.1.head = v then Pfl.Earley.pushIfNew C.G T s.e
+          { prod := pk.2, b := s.e, e := s.e, dot := 0, fs := pk.1.feats }
+        else T) T (C.G.prods.zip (List.range C.G.prods.length))) = T1 at h1 ⊢
+    have hX' := h1.withProc s.e
+    have key : ∀ (l : List EState) (T' : Tables) (rk' : Nat → Nat) (X' : List (Nat × EState)),
+        Inv C T' rk' X' → (s.e, s) ∈ X' → (∀ c ∈ l, (s.e, c) ∈ X') →
+        ∃ rk'', Inv C (l.foldl (fun T c =>
+          if !(incomplete C.G c) ∧ c.b = s.e ∧ (prodOf C.G c.prod).head = v then
+            Pfl.Earley.advance C.G T s c else T) T') rk'' X' := by
+      intro l
+      induction l with
+      | nil => intro T' rk' X' h' _ _; exact ⟨rk', h'⟩
+      | cons c l ih =>
+        intro T' rk' X' h' hs' hl
+        rw [List.foldl_cons]
+        have h1 : ∃ rk1, Inv C (if !(incomplete C.G c) ∧ c.b = s.e ∧
+            (prodOf C.G c.prod).head = v then Pfl.Earley.advance C.G T' s c else T') rk1 X' := by
+          split
+          · rename_i hcond
+            obtain ⟨hc1, hc2, hc3⟩ := hcond
+            refine h'.advance hC (hl c (List.mem_cons_self ..)) (by rw [hc2]; exact hs')
+              (by simpa using hc1) hinc (by rw [hc3]; exact hnext)
+          · exact ⟨rk', h'⟩
+        obtain ⟨rk1, h1⟩ := h1
+        exact ih _ rk1 X' h1 hs' (fun c' hn => hl c' (List.mem_cons_of_mem _ hn))
+    obtain ⟨rk', h'⟩ := key (procStates T1 s.e) T1 rk _ hX' (List.mem_append_left _ hs)
+      (fun c hn => List.mem_append_right _ (List.mem_map.2 ⟨c, hn, rfl⟩))
+    exact ⟨rk', h'.weaken (fun e he => List.mem_append_left _ he)⟩
+  · exact ⟨rk, h⟩
+
+theorem Inv.columnLoop {C : Ctx} (hC : CtxOK C) (i : Nat) :
     ∀ (f : Nat) (T T' : Tables) (rk : Nat → Nat), Inv C T rk [] →
-      Pfl.Earley.columnLoop C.G C.word i last f T = some T' → ∃ rk', Inv C T' rk' [] := by
+      Pfl.Earley.columnLoop C.G C.word i f T = some T' → ∃ rk', Inv C T' rk' [] := by
   intro f
   induction f with
   | zero => intro T T' rk _ h; simp [Pfl.Earley.columnLoop] at h
@@ -651,10 +677,7 @@ theorem Inv.columnLoop {C : Ctx} (hC : CtxOK C) (i : Nat) (last : Bool) :
           simp only [List.mem_singleton] at he; subst he; exact hsOK
       have hmem : (i, s) ∈ [(i, s)] := List.mem_singleton.2 rfl
       have step : ∃ rk1, Inv C
-          (if last then (if incomplete C.G s then
-              { T with chart := T.chart.set i (colGet T.chart i).dropLast }
-            else Pfl.Earley.completer C.G { T with chart := T.chart.set i (colGet T.chart i).dropLast } s)
-          else if incomplete C.G s then
+          (if incomplete C.G s then
             match nextSym C.G s with
             | some (.var _) => Pfl.Earley.predictor C.G { T with chart := T.chart.set i (colGet T.chart i).dropLast } s
             | some (.ter t) => if C.word[i]? = some t then
@@ -663,23 +686,20 @@ theorem Inv.columnLoop {C : Ctx} (hC : CtxOK C) (i : Nat) (last : Bool) :
             | none => { T with chart := T.chart.set i (colGet T.chart i).dropLast }
           else Pfl.Earley.completer C.G { T with chart := T.chart.set i (colGet T.chart i).dropLast } s) rk1 [] := by
         split
-        · split
-          · exact ⟨rk, h0.weaken (by simp)⟩
-          · rename_i hinc
-            obtain ⟨rk1, h1⟩ := h0.completer hC hmem (by simpa using hinc)
+        · rename_i hinc
+          split
+          · have hmem' : (s.e, s) ∈ [(i, s)] := by rw [hsOK.e_eq]; exact hmem
+            obtain ⟨rk1, h1⟩ := h0.predictor hC hmem' hinc
             exact ⟨rk1, h1.weaken (by simp)⟩
-        · split
-          · split
-            · exact ⟨rk, (h0.predictor hC s).weaken (by simp)⟩
-            · rename_i t hnext
-              split
-              · rename_i hw
-                exact ⟨rk, (h0.scanner hC hsOK hnext hw).weaken (by simp)⟩
-              · exact ⟨rk, h0.weaken (by simp)⟩
+          · rename_i t hnext
+            split
+            · rename_i hw
+              exact ⟨rk, (h0.scanner hC hsOK hnext hw).weaken (by simp)⟩
             · exact ⟨rk, h0.weaken (by simp)⟩
-          · rename_i hinc
-            obtain ⟨rk1, h1⟩ := h0.completer hC hmem (by simpa using hinc)
-            exact ⟨rk1, h1.weaken (by simp)⟩
+          · exact ⟨rk, h0.weaken (by simp)⟩
+        · rename_i hinc
+          obtain ⟨rk1, h1⟩ := h0.completer hC hmem (by simpa using hinc)
+          exact ⟨rk1, h1.weaken (by simp)⟩
       obtain ⟨rk1, h1⟩ := step
       exact ih _ T' rk1 h1 hr
 
@@ -725,27 +745,22 @@ theorem contains_sound {C : Ctx} (hC : CtxOK C) {st0 : Store} {rk0 : Nat → Nat
     | cons i l ih =>
       intro T T' rk hT hr
       simp only [contains.cols] at hr
-      cases hcl : Pfl.Earley.columnLoop C.G C.word i false fuel T with
+      cases hcl : Pfl.Earley.columnLoop C.G C.word i fuel T with
       | none => rw [hcl] at hr; simp at hr
       | some T1 =>
         rw [hcl] at hr
-        obtain ⟨rk1, h1⟩ := Inv.columnLoop hC i false fuel T T1 rk hT hcl
+        obtain ⟨rk1, h1⟩ := Inv.columnLoop hC i fuel T T1 rk hT hcl
         exact ih T1 T' rk1 h1 hr
-  cases hc : contains.cols C.G C.word fuel (List.range C.word.length)
+  cases hc : contains.cols C.G C.word fuel (List.range (C.word.length + 1))
       (Pfl.Earley.pushIfNew C.G (Tables.mk st0 (List.replicate (C.word.length + 1) [])
         (List.replicate (C.word.length + 1) [])) 0
         { prod := C.G.prods.length, b := 0, e := 0, dot := 0, fs := C.G.gammaFeats }) with
   | none => rw [hc] at h; simp at h
-  | some T2 =>
+  | some T3 =>
     rw [hc] at h
-    simp only at h
-    obtain ⟨rk2, h2⟩ := hcols _ _ T2 rk0 hT1 hc
-    cases hl : Pfl.Earley.columnLoop C.G C.word C.word.length true fuel T2 with
-    | none => rw [hl] at h; simp at h
-    | some T3 =>
-      rw [hl] at h
-      simp only [Option.some.injEq, List.any_eq_true] at h
-      obtain ⟨rk3, h3⟩ := Inv.columnLoop hC _ true fuel T2 T3 rk2 h2 hl
+    simp only [Option.some.injEq, List.any_eq_true] at h
+    obtain ⟨rk3, h3⟩ := hcols _ _ T3 rk0 hT1 hc
+    ·
       obtain ⟨s, hsm, hs⟩ := h
       simp only [decide_eq_true_eq] at hs
       obtain ⟨hb, hinc, hhead⟩ := hs
